@@ -19,6 +19,7 @@ def main():
     from vm import common as C
     from vm import calls
     C.setup_repo()
+    from vm import c13  # noqa: F401  (installs the extended run_call used by the specs)
     root = os.path.join(C.REPO, 'stdnum') + os.sep
     rng = random.Random(spec['seed'])
     yieldp = spec.get('yieldp', 0.02)
@@ -59,17 +60,27 @@ def main():
     sys.setswitchinterval(1e-6)
 
     n = spec['nthreads']
+    # like a program's own import statements: the modules the threads call directly are imported up front; what
+    # the library loads lazily by itself (registries, country packages behind get_cc_module, caches) stays cold
+    for plan in spec['plans']:
+        for s in plan:
+            if s['module'] != 'util':
+                C.get_module(s['module'])
     barrier = threading.Barrier(n)
     results = [None] * n
+    errors = []
     plans = spec['plans']     # per thread: list of call specs
 
     def run(i):
         out = []
         barrier.wait()
-        for s in plans[i]:
-            o, _raw = calls.run_call(s)
-            out.append([s['id'], o])
-        results[i] = out
+        try:
+            for s in plans[i]:
+                o, _raw = calls.run_call(s)
+                out.append([s['id'], o])
+            results[i] = out
+        except BaseException as e:  # noqa: B902
+            errors.append('thread %d: %r' % (i, e))
     threads = [threading.Thread(target=run, args=(i,)) for i in range(n)]
     mon.set_events(TOOL, mon.events.LINE)
     for t in threads:
@@ -88,7 +99,7 @@ def main():
         inv = c13.cache_invariant_violations()
     except Exception as e:  # noqa: B902
         inv = ['invariant check failed: %r' % e]
-    print(json.dumps({'results': results, 'hung': hung, 'stats': stats,
+    print(json.dumps({'results': results, 'hung': hung, 'stats': stats, 'harness_errors': errors,
                       'registry_files_opened_by_n_threads': {k: len(v) for k, v in by_file.items()},
                       'invariants': inv}))
     sys.stdout.flush()
